@@ -96,6 +96,12 @@ type Lemma struct {
 	PkgPath string
 	Uses    []string
 	Calls   []string // "x = recv.Method(args)" / "x, y = f(args)": contracts of real functions applied to the lemma's variables
+	Steps   []LemmaStep // hyps and calls in textual order (a hyp after a call may mention the call's results / the new state)
+}
+
+type LemmaStep struct {
+	Hyp  *Clause
+	Call string
 }
 
 type ContractSet struct {
@@ -370,6 +376,7 @@ func (cs *ContractSet) parseFile(path, pkgPath string) error {
 					return fail(fmt.Errorf("call outside lemma"))
 				}
 				curLem.Calls = append(curLem.Calls, rc.text)
+				curLem.Steps = append(curLem.Steps, LemmaStep{Call: rc.text})
 			case "vars":
 				if curLem == nil {
 					return fail(fmt.Errorf("vars outside lemma"))
@@ -389,6 +396,8 @@ func (cs *ContractSet) parseFile(path, pkgPath string) error {
 				}
 				if rc.kw == "hyp" {
 					curLem.Hyps = append(curLem.Hyps, c)
+					cc := c
+					curLem.Steps = append(curLem.Steps, LemmaStep{Hyp: &cc})
 				} else {
 					curLem.Concl = append(curLem.Concl, c)
 				}
